@@ -227,6 +227,264 @@ theorem C12_syscall_x86_64 :
     ∀ q ∈ LA.Gen.Syscalls_x86_64.table.zipIdx, Tables.syscallName (ofString "x86_64") q.1.1 = some q.1.2 :=
   syscallName_of_cert (nameTree := LA.Gen.Syscalls_x86_64.nameTree) rfl LA.Gen.Syscalls_x86_64.cert_nums
 
+/-! ### socket addresses: hex of struct sockaddr -/
+
+theorem hexVal_digit (n : Nat) (h : n < 16) : hexVal (upperHexDigit n) = some n := by
+  unfold hexVal upperHexDigit isDigit
+  by_cases h10 : n < 10
+  · have : (decide (48 ≤ 48 + n) && decide (48 + n ≤ 57)) = true := by simp; omega
+    simp only [h10, if_true, this]
+    congr 1; omega
+  · have h1 : (decide (48 ≤ 55 + n) && decide (55 + n ≤ 57)) = false := by simp; omega
+    have h2 : ¬ (97 ≤ 55 + n ∧ 55 + n ≤ 102) := by omega
+    have h3 : (65 ≤ 55 + n ∧ 55 + n ≤ 70) := by omega
+    simp only [h10, if_false, h1, Bool.false_eq_true, h2, h3, and_self, if_true]
+    congr 1; omega
+
+/-- strconv base-16 digits of an upper-case hex rendering: the big-endian value of the bytes. -/
+theorem parseHexDigits_hexEnc (bs : Bytes) (hb : IsBytes bs) (acc : Nat) :
+    parseHexDigits (hexEnc bs) acc = some (bs.foldl (fun a b => a * 256 + b) acc) := by
+  induction bs generalizing acc with
+  | nil => rfl
+  | cons b bs ih =>
+    have hb' : b < 256 := hb b (by simp)
+    simp only [hexEnc, parseHexDigits, hexVal_digit (b / 16) (by omega), hexVal_digit (b % 16) (by omega), List.foldl_cons]
+    rw [ih (fun x hx => hb x (by simp [hx]))]
+    congr 2; omega
+
+theorem hexEnc_length (v : Bytes) : (hexEnc v).length = 2 * v.length := by
+  induction v with
+  | nil => rfl
+  | cons b bs ih => simp [hexEnc, ih]; omega
+
+theorem hexEnc_append (u v : Bytes) : hexEnc (u ++ v) = hexEnc u ++ hexEnc v := by
+  induction u with
+  | nil => rfl
+  | cons b bs ih => simp [hexEnc, ih]
+
+/-- ParseInt(·, 16, 32) of the hex of a non-empty byte string is its big-endian value, when that
+fits a signed 32-bit integer. -/
+theorem parseInt16_hexEnc_lt (bs : Bytes) (hb : IsBytes bs) (hne : bs ≠ [])
+    (hbound : bs.foldl (fun a b => a * 256 + b) 0 < 2 ^ (32 - 1)) :
+    parseInt 16 32 (hexEnc bs) = some ((bs.foldl (fun a b => a * 256 + b) 0 : Nat) : Int) := by
+  obtain ⟨b, tl, rfl⟩ : ∃ b tl, bs = b :: tl := by
+    cases bs with
+    | nil => exact absurd rfl hne
+    | cons b tl => exact ⟨b, tl, rfl⟩
+  have hb' : b < 256 := hb b (by simp)
+  have hd : ∀ n, n < 16 → upperHexDigit n ≠ 43 ∧ upperHexDigit n ≠ 45 := by
+    intro n hn; unfold upperHexDigit; split <;> omega
+  have hss : splitSign (hexEnc (b :: tl)) = (false, hexEnc (b :: tl)) := by
+    simp only [hexEnc]
+    unfold splitSign
+    have := hd (b / 16) (by omega)
+    split
+    · rename_i heq; simp at heq; omega
+    · rename_i heq; simp at heq; omega
+    · rfl
+  unfold parseInt
+  simp only [hss, beq_self_eq_true, if_true, parseHexDigits_hexEnc _ hb 0]
+  have hne' : (hexEnc (b :: tl)).isEmpty = false := by simp [hexEnc]
+  simp only [hne', Bool.false_eq_true, if_false, hbound, if_true]
+
+theorem be_value_lt (l : Bytes) (acc : Nat) (hl : IsBytes l) :
+    l.foldl (fun a b => a * 256 + b) acc < (acc + 1) * 256 ^ l.length := by
+  induction l generalizing acc with
+  | nil => simp
+  | cons x xs ih =>
+    have hx : x < 256 := hl x (by simp)
+    have := ih (acc * 256 + x) (fun y hy => hl y (by simp [hy]))
+    simp only [List.foldl_cons, List.length_cons]
+    calc _ < (acc * 256 + x + 1) * 256 ^ xs.length := this
+      _ ≤ ((acc + 1) * 256) * 256 ^ xs.length := Nat.mul_le_mul_right _ (by omega)
+      _ = (acc + 1) * 256 ^ (xs.length + 1) := by rw [Nat.pow_succ, Nat.mul_assoc, Nat.mul_comm 256]
+
+/-- ParseInt(·, 16, 32) of the hex of one to three bytes is their big-endian value. -/
+theorem parseInt16_hexEnc (bs : Bytes) (hb : IsBytes bs) (hne : bs ≠ []) (hlen : bs.length ≤ 3) :
+    parseInt 16 32 (hexEnc bs) = some ((bs.foldl (fun a b => a * 256 + b) 0 : Nat) : Int) := by
+  refine parseInt16_hexEnc_lt bs hb hne ?_
+  have h1 := be_value_lt bs 0 hb
+  have h2 : 256 ^ bs.length ≤ 256 ^ 3 := Nat.pow_le_pow_right (by omega) hlen
+  have h3 : (256 : Nat) ^ 3 < 2 ^ (32 - 1) := by decide
+  omega
+
+theorem slice_nat (s : Bytes) (i j : Nat) (hij : i ≤ j) (hj : j ≤ s.length) :
+    slice s (i : Int) (j : Int) = Res.ok ((s.drop i).take (j - i)) := by
+  unfold slice
+  have c : (0 : Int) ≤ (i : Int) ∧ (i : Int) ≤ (j : Int) ∧ (j : Int) ≤ (s.length : Int) := by omega
+  rw [if_pos c]
+  have e1 : (j : Int).toNat - (i : Int).toNat = j - i := by omega
+  have e2 : (i : Int).toNat = i := by omega
+  rw [e1, e2]
+
+/-- IPv4: the hex of a struct sockaddr_in {AF_INET little-endian, port big-endian, 4 address
+bytes, padding} decodes to family ipv4, the dotted-quad address and the port — for every port,
+every address and any padding. -/
+theorem C12_sockaddr_ipv4 (p a b c d : Nat) (pad : Bytes) (hp : p < 65536) (ha : a < 256) (hb : b < 256) (hc : c < 256)
+    (hd : d < 256) :
+    parseSockaddr (hexEnc ([2, 0, p / 256, p % 256, a, b, c, d] ++ pad)) =
+      Res.ok [(ofString "family", ofString "ipv4"),
+              (ofString "addr", joinWith [46] [dec a, dec b, dec c, dec d]),
+              (ofString "port", dec p)] := by
+  have hl : (hexEnc ([2, 0, p / 256, p % 256, a, b, c, d] ++ pad)).length = 16 + 2 * pad.length := by
+    rw [hexEnc_length]; simp; omega
+  have hs : hexEnc ([2, 0, p / 256, p % 256, a, b, c, d] ++ pad) =
+      hexEnc [2] ++ (hexEnc [0] ++ (hexEnc [p / 256, p % 256] ++ (hexEnc [a, b, c, d] ++ hexEnc pad))) := by
+    rw [← hexEnc_append, ← hexEnc_append, ← hexEnc_append, ← hexEnc_append]; rfl
+  have one : ∀ x, x < 256 → decInt (hexToDecOr0 (hexEnc [x])) = dec x := by
+    intro x hx
+    unfold hexToDecOr0
+    rw [parseInt16_hexEnc [x] (by intro y hy; simp at hy; omega) (by simp) (by simp)]
+    simp [decInt]
+  unfold parseSockaddr
+  have c0 : ¬ (hexEnc ([2, 0, p / 256, p % 256, a, b, c, d] ++ pad)).length < 4 := by omega
+  rw [if_neg c0]
+  have s1 := slice_nat (hexEnc ([2, 0, p / 256, p % 256, a, b, c, d] ++ pad)) 2 4 (by omega) (by omega)
+  have s2 := slice_nat (hexEnc ([2, 0, p / 256, p % 256, a, b, c, d] ++ pad)) 0 2 (by omega) (by omega)
+  have s3 := slice_nat (hexEnc ([2, 0, p / 256, p % 256, a, b, c, d] ++ pad)) 4 8 (by omega) (by omega)
+  have s4 := slice_nat (hexEnc ([2, 0, p / 256, p % 256, a, b, c, d] ++ pad)) 8 16 (by omega) (by omega)
+  have d1 : ((hexEnc ([2, 0, p / 256, p % 256, a, b, c, d] ++ pad)).drop 2).take (4 - 2) = hexEnc [0] := by rw [hs]; rfl
+  have d2 : ((hexEnc ([2, 0, p / 256, p % 256, a, b, c, d] ++ pad)).drop 0).take (2 - 0) = hexEnc [2] := by rw [hs]; rfl
+  have d3 : ((hexEnc ([2, 0, p / 256, p % 256, a, b, c, d] ++ pad)).drop 4).take (8 - 4) = hexEnc [p / 256, p % 256] := by rw [hs]; rfl
+  have d4 : ((hexEnc ([2, 0, p / 256, p % 256, a, b, c, d] ++ pad)).drop 8).take (16 - 8) = hexEnc [a, b, c, d] := by rw [hs]; rfl
+  rw [d1] at s1; rw [d2] at s2; rw [d3] at s3; rw [d4] at s4
+  have s1' : slice (hexEnc ([2, 0, p / 256, p % 256, a, b, c, d] ++ pad)) 2 4 = Res.ok (hexEnc [0]) := s1
+  have s2' : slice (hexEnc ([2, 0, p / 256, p % 256, a, b, c, d] ++ pad)) 0 2 = Res.ok (hexEnc [2]) := s2
+  have s3' : slice (hexEnc ([2, 0, p / 256, p % 256, a, b, c, d] ++ pad)) 4 8 = Res.ok (hexEnc [p / 256, p % 256]) := s3
+  have s4' : slice (hexEnc ([2, 0, p / 256, p % 256, a, b, c, d] ++ pad)) 8 16 = Res.ok (hexEnc [a, b, c, d]) := s4
+  have fam : parseInt 16 32 (hexEnc [0] ++ hexEnc [2]) = some 2 := by decide +kernel
+  have port : parseInt 16 32 (hexEnc [p / 256, p % 256]) = some (p : Int) := by
+    rw [parseInt16_hexEnc [p / 256, p % 256] (by intro y hy; simp at hy; omega) (by simp) (by simp)]
+    simp only [List.foldl_cons, List.foldl_nil]
+    congr 2; omega
+  have c16 : ¬ (hexEnc ([2, 0, p / 256, p % 256, a, b, c, d] ++ pad)).length < 16 := by omega
+  have ip : hexToIP (hexEnc [a, b, c, d]) = Res.ok (joinWith [46] [dec a, dec b, dec c, dec d]) := by
+    unfold hexToIP
+    have l8 : (hexEnc [a, b, c, d]).length = 8 := by rw [hexEnc_length]; rfl
+    simp only [l8, beq_self_eq_true, if_true]
+    have t1 : (hexEnc [a, b, c, d]).take 2 = hexEnc [a] := rfl
+    have t2 : ((hexEnc [a, b, c, d]).drop 2).take 2 = hexEnc [b] := rfl
+    have t3 : ((hexEnc [a, b, c, d]).drop 4).take 2 = hexEnc [c] := rfl
+    have t4 : ((hexEnc [a, b, c, d]).drop 6).take 2 = hexEnc [d] := rfl
+    rw [t1, t2, t3, t4, one a ha, one b hb, one c hc, one d hd]
+  simp only [s1', s2', s3', s4', fam, port, ip, c16, bind, Bind.bind, if_false]
+  have dp : decInt (p : Int) = dec p := by simp [decInt]
+  simp [dp]
+
+/-- Unix sockets: the hex of {AF_UNIX little-endian, path, NUL, anything} decodes to family unix
+and the path up to the first NUL. -/
+theorem C12_sockaddr_unix (path junk : Bytes) (hp : IsBytes path) (hj : IsBytes junk) (h0 : (0 : Nat) ∉ path) :
+    parseSockaddr (hexEnc ([1, 0] ++ path ++ 0 :: junk)) =
+      Res.ok [(ofString "family", ofString "unix"), (ofString "path", path)] := by
+  have hs : hexEnc ([1, 0] ++ path ++ 0 :: junk) = hexEnc [1] ++ (hexEnc [0] ++ hexEnc (path ++ 0 :: junk)) := by
+    rw [← hexEnc_append, ← hexEnc_append]; simp
+  have hl : (hexEnc ([1, 0] ++ path ++ 0 :: junk)).length = 4 + (hexEnc (path ++ 0 :: junk)).length := by
+    rw [hs]; simp [hexEnc_length]; omega
+  unfold parseSockaddr
+  have c0 : ¬ (hexEnc ([1, 0] ++ path ++ 0 :: junk)).length < 4 := by omega
+  rw [if_neg c0]
+  have s1 := slice_nat (hexEnc ([1, 0] ++ path ++ 0 :: junk)) 2 4 (by omega) (by omega)
+  have s2 := slice_nat (hexEnc ([1, 0] ++ path ++ 0 :: junk)) 0 2 (by omega) (by omega)
+  have d1 : ((hexEnc ([1, 0] ++ path ++ 0 :: junk)).drop 2).take (4 - 2) = hexEnc [0] := by rw [hs]; rfl
+  have d2 : ((hexEnc ([1, 0] ++ path ++ 0 :: junk)).drop 0).take (2 - 0) = hexEnc [1] := by rw [hs]; rfl
+  rw [d1] at s1; rw [d2] at s2
+  have s1' : slice (hexEnc ([1, 0] ++ path ++ 0 :: junk)) 2 4 = Res.ok (hexEnc [0]) := s1
+  have s2' : slice (hexEnc ([1, 0] ++ path ++ 0 :: junk)) 0 2 = Res.ok (hexEnc [1]) := s2
+  have fam : parseInt 16 32 (hexEnc [0] ++ hexEnc [1]) = some 1 := by decide +kernel
+  have s3 : sliceFrom (hexEnc ([1, 0] ++ path ++ 0 :: junk)) 4 = Res.ok (hexEnc (path ++ 0 :: junk)) := by
+    unfold sliceFrom
+    have := slice_nat (hexEnc ([1, 0] ++ path ++ 0 :: junk)) 4 (hexEnc ([1, 0] ++ path ++ 0 :: junk)).length (by omega) (by omega)
+    have this' : slice (hexEnc ([1, 0] ++ path ++ 0 :: junk)) 4 ((hexEnc ([1, 0] ++ path ++ 0 :: junk)).length : Int) = _ := this
+    rw [this', hs]
+    have : (hexEnc [1] ++ (hexEnc [0] ++ hexEnc (path ++ 0 :: junk))).drop 4 = hexEnc (path ++ 0 :: junk) := rfl
+    rw [this, List.take_of_length_le]
+    rw [← hs, hl]; omega
+  have hbytes : IsBytes (path ++ 0 :: junk) := by
+    intro x hx
+    simp only [List.mem_append, List.mem_cons] at hx
+    rcases hx with hx | rfl | hx
+    · exact hp x hx
+    · omega
+    · exact hj x hx
+  have hstr : hexToString (hexEnc (path ++ 0 :: junk)) = some path := by
+    rw [C12_hex_cstring _ hbytes]
+    congr 1
+    rw [List.takeWhile_append_of_pos (by intro x hx; simp; intro h; exact h0 (h ▸ hx))]
+    simp
+  simp only [s1', s2', fam, s3, hstr, bind, Bind.bind]
+  rfl
+
+theorem decodeHexAny_hexEnc (v : Bytes) (hv : IsBytes v) : decodeHexAny (hexEnc v) = some v := by
+  induction v with
+  | nil => rfl
+  | cons b bs ih =>
+    have hb' : b < 256 := hv b (by simp)
+    simp only [hexEnc, decodeHexAny, hexVal_digit (b / 16) (by omega), hexVal_digit (b % 16) (by omega),
+      ih (fun x hx => hv x (by simp [hx]))]
+    congr 2; omega
+
+/-- IPv6: the hex of a struct sockaddr_in6 {AF_INET6 little-endian, port big-endian, flowinfo
+big-endian, 16 address bytes, scope id} decodes to family ipv6, the port, the flow label when it
+is non-zero, and the text form of exactly those 16 address bytes (`ipString16` is the model of
+net.IP.String: dotted quad for v4-mapped addresses, else RFC 5952 compression). -/
+theorem C12_sockaddr_ipv6 (p flow : Nat) (addr scope : Bytes) (hp : p < 65536) (hf : flow < 2147483648)
+    (ha : IsBytes addr) (hal : addr.length = 16) :
+    parseSockaddr (hexEnc ([10, 0, p / 256, p % 256, flow / 16777216, flow / 65536 % 256, flow / 256 % 256, flow % 256] ++
+        (addr ++ scope))) =
+      Res.ok ([(ofString "family", ofString "ipv6"), (ofString "addr", ipString16 addr), (ofString "port", dec p)] ++
+        (if flow > 0 then [(ofString "flow", dec flow)] else [])) := by
+  generalize hS : hexEnc ([10, 0, p / 256, p % 256, flow / 16777216, flow / 65536 % 256, flow / 256 % 256, flow % 256] ++
+        (addr ++ scope)) = S
+  have hs : S = hexEnc [10] ++ (hexEnc [0] ++ (hexEnc [p / 256, p % 256] ++
+      (hexEnc [flow / 16777216, flow / 65536 % 256, flow / 256 % 256, flow % 256] ++ (hexEnc addr ++ hexEnc scope)))) := by
+    rw [← hS, ← hexEnc_append, ← hexEnc_append, ← hexEnc_append, ← hexEnc_append, ← hexEnc_append]; rfl
+  have hla : (hexEnc addr).length = 32 := by rw [hexEnc_length, hal]
+  have hl : S.length = 48 + 2 * scope.length := by
+    rw [← hS, hexEnc_length]; simp [hal]; omega
+  unfold parseSockaddr
+  have c0 : ¬ S.length < 4 := by omega
+  rw [if_neg c0]
+  have s1 : slice S 2 4 = Res.ok (hexEnc [0]) := by
+    exact (slice_nat S 2 4 (by omega) (by omega)).trans (by rw [hs]; rfl)
+  have s2 : slice S 0 2 = Res.ok (hexEnc [10]) := by
+    exact (slice_nat S 0 2 (by omega) (by omega)).trans (by rw [hs]; rfl)
+  have s3 : slice S 4 8 = Res.ok (hexEnc [p / 256, p % 256]) := by
+    exact (slice_nat S 4 8 (by omega) (by omega)).trans (by rw [hs]; rfl)
+  have s4 : slice S 8 16 = Res.ok (hexEnc [flow / 16777216, flow / 65536 % 256, flow / 256 % 256, flow % 256]) := by
+    exact (slice_nat S 8 16 (by omega) (by omega)).trans (by rw [hs]; rfl)
+  have s5 : slice S 16 48 = Res.ok (hexEnc addr) := by
+    refine (slice_nat S 16 48 (by omega) (by omega)).trans ?_
+    rw [hs]
+    have : (hexEnc [10] ++ (hexEnc [0] ++ (hexEnc [p / 256, p % 256] ++
+      (hexEnc [flow / 16777216, flow / 65536 % 256, flow / 256 % 256, flow % 256] ++ (hexEnc addr ++ hexEnc scope))))).drop 16 =
+        hexEnc addr ++ hexEnc scope := rfl
+    rw [this, List.take_left' hla]
+  have fam : parseInt 16 32 (hexEnc [0] ++ hexEnc [10]) = some 10 := by decide +kernel
+  have port : parseInt 16 32 (hexEnc [p / 256, p % 256]) = some (p : Int) := by
+    rw [parseInt16_hexEnc [p / 256, p % 256] (by intro y hy; simp at hy; omega) (by simp) (by simp)]
+    simp only [List.foldl_cons, List.foldl_nil]
+    congr 2; omega
+  have hfv : [flow / 16777216, flow / 65536 % 256, flow / 256 % 256, flow % 256].foldl (fun a b => a * 256 + b) 0 = flow := by
+    simp only [List.foldl_cons, List.foldl_nil]; omega
+  have flw : parseInt 16 32 (hexEnc [flow / 16777216, flow / 65536 % 256, flow / 256 % 256, flow % 256]) = some (flow : Int) := by
+    rw [parseInt16_hexEnc_lt _ (by intro y hy; simp at hy; omega) (by simp) (by rw [hfv]; exact hf), hfv]
+  have c48 : ¬ S.length < 48 := by omega
+  have ip : hexToIP (hexEnc addr) = Res.ok (ipString16 addr) := by
+    unfold hexToIP
+    have n8 : ((32 : Nat) == 8) = false := by decide
+    simp only [hla, n8, Bool.false_eq_true, if_false, beq_self_eq_true, if_true, decodeHexAny_hexEnc addr ha]
+  have dp : decInt (p : Int) = dec p := by simp [decInt]
+  have df : decInt (flow : Int) = dec flow := by simp [decInt]
+  simp only [s1, s2, s3, s4, s5, fam, port, flw, ip, c48, bind, Bind.bind, if_false, dp, df]
+  have e10 : ((10 : Int) == 1) = false := by decide
+  have e2 : ((10 : Int) == 2) = false := by decide
+  simp only [e10, e2, Bool.false_eq_true, if_false, beq_self_eq_true, if_true]
+  by_cases hz : flow > 0
+  · have : (flow : Int) > 0 := by omega
+    simp [hz, this]
+  · have : ¬ (flow : Int) > 0 := by omega
+    simp [hz, this]
+
 /-- non-vacuity: a value in the domain. -/
 example : InDomain (ofString "/usr/bin/bash") ∧ (ofString "/usr/bin/bash").all isSafeByte = true := by
   refine ⟨⟨by decide, ?_, ?_⟩, by decide⟩
